@@ -86,7 +86,7 @@ class BasicContiguousReference
     constexpr BasicContiguousReference& operator=(const cntgs::BasicContiguousElement<Allocator, Parameter...>&
                                                       other) noexcept(ListTraits::IS_NOTHROW_COPY_ASSIGNABLE)
     {
-        assign(other.reference);
+        assign(other.reference_);
         return *this;
     }
 
